@@ -330,6 +330,20 @@ def check(prop, tier):
     lines = []
     for key, (kf, r, v) in known_seen.items():
         lines.append("KNOWN-FINDING: property=%s %s [key=%s, e.g. seed %d: %s]" % (prop, kf.get("what", ""), key, r["seed"], v["message"][:300]))
+    if os.environ.get("VERIF_SAVE_KNOWN"):
+        # maintenance: write (and confirm) a replay file for each known class seen
+        for key, (kf, r, v) in known_seen.items():
+            if not r.get("steps"):
+                rj = [{"mode": "seeds", "property": prop, "thorough": thorough, "seeds": [r["seed"]], "keep_steps": True, "known_keys": []}]
+                ro, rd = run_workers(rj, 900)
+                for job, results, rc, log in ro:
+                    for rr in results:
+                        if rr.get("steps"):
+                            r = rr
+                shutil.rmtree(rd, ignore_errors=True)
+            raw, rf = write_replay(prop, r, v, rundir)
+            final, ok = minimise_and_confirm(prop, raw, rf)
+            lines.append("KNOWN-REPLAY key=%s reproduced=%s file=%s" % (key, ok, final))
     if new_viol:
         # one replay per distinct class key (at most 3)
         seen = set()
